@@ -565,28 +565,28 @@ func bytesOfString(i *interpreter, s value) []value {
 
 func extReadFile(fr *frame, args []value) value {
 	i := fr.i
-	name := i.concreteString(args[0], "os.ReadFile name")
-	if i.ps.failRead[name] {
-		return tuple{[]value(nil), i.errValue("open " + name + ": injected failure")}
-	}
-	c, ok := i.ps.files[name]
-	if !ok {
-		return tuple{[]value(nil), i.errValue("open " + name + ": no such file or directory")}
-	}
+	name := args[0]
 	i.ps.reads = append(i.ps.reads, name)
-	return tuple{bytesOfString(i, c), iface{}}
+	if i.flagged(i.ps.failRead, name) {
+		return tuple{[]value(nil), i.errValue("open " + i.showStr(name) + ": injected failure")}
+	}
+	k := i.vfsFind(name)
+	if k < 0 {
+		return tuple{[]value(nil), i.errValue("open " + i.showStr(name) + ": no such file or directory")}
+	}
+	return tuple{bytesOfString(i, i.ps.vfs[k].data), iface{}}
 }
 
 func extWriteFile(fr *frame, args []value) value {
 	i := fr.i
-	name := i.concreteString(args[0], "os.WriteFile name")
+	name := args[0]
 	data := conv(i, types.Typ[types.String], types.NewSlice(types.Typ[types.Byte]), args[1])
-	if i.ps.failWrite[name] || i.ps.failWrite["*"] {
+	if i.flagged(i.ps.failWrite, name) {
 		i.ps.writes = append(i.ps.writes, fsWrite{name, data, false})
-		return i.errValue("open " + name + ": permission denied")
+		return i.errValue("open " + i.showStr(name) + ": permission denied")
 	}
 	i.ps.writes = append(i.ps.writes, fsWrite{name, data, true})
-	i.ps.files[name] = data
+	i.vfsSet(name, data)
 	return iface{}
 }
 
